@@ -151,6 +151,13 @@ def run(ctx):
         c.ob("R3", ok, cm, "config-is-mapping", "create_machine checks that the config is a mapping before reading it" if ok else
              f"'{stmt_text(x)}' in create_machine is not dominated by an isinstance(config, dict) check on every path (with logic= given the "
              f"loader's check is skipped): a non-object config raises a raw AttributeError/TypeError", x)
+    # ---- R5 an unresolvable target is a StateNotFoundError in both engines -------------------------
+    for v in VIEWS:
+        r = roles(ctx, v)
+        clo = [r.dispatch] + [t for s_ in res.callsites(r.dispatch, v) if s_.recv == "self" for t in s_.targets if "resolve_target" in t.name]
+        ok = any(isinstance(x, ast.Raise) and x.exc is not None and "StateNotFoundError" in norm(x.exc) for f_ in clo for x in own_nodes(f_.node))
+        c.ob("R5", ok, r.dispatch, f"{v}:unresolvable-target-raises", "an unresolvable transition target raises StateNotFoundError" if ok else
+             f"under {v} an unresolvable transition target no longer raises StateNotFoundError (the transition would silently do something else)", r.dispatch.node)
     # ---- R4 spelling normalisers ---------------------------------------------------------------
     sn = p.cls("StateNode")
     po = sn.methods["_parse_on"]
